@@ -17,6 +17,84 @@ func init() {
 	opRunners["stallw"] = runStallW
 	opRunners["massdisc"] = runMassDisc
 	opRunners["stallr"] = runStallR
+	opRunners["panicw"] = runPanicW
+}
+
+// nilHandler answers Get / ZRange / SMembers on the key "poison" with (nil, nil): the framework's composed commands
+// then dereference a nil message, i.e. panic inside the connection goroutine while executing a command.
+type nilHandler struct{ *safeHandler }
+
+func (h *nilHandler) Get(conn *redis.Conn, key string) (*redis.Message, error) {
+	if key == "poison" {
+		return nil, nil
+	}
+	return h.safeHandler.Get(conn, key)
+}
+
+func (h *nilHandler) ZRange(conn *redis.Conn, key string, start int, stop int, opt redis.ZRangeOption) (*redis.Message, error) {
+	if key == "poison" {
+		return nil, nil
+	}
+	return h.safeHandler.ZRange(conn, key, start, stop, opt)
+}
+
+// case: "panicw <n> <cmd>": <n> connections each send a composed command on the key "poison" (the request crashes
+// inside the framework and the connection is dropped); witness connections - one opened before, one after - must
+// keep getting exact replies.
+func runPanicW(toks []string) Result {
+	n, _ := strconv.Atoi(toks[1])
+	srv := redis.NewServer()
+	srv.SetCommandHandler(&nilHandler{newSafeHandler()})
+	open := func() net.Conn {
+		cl, sv := net.Pipe()
+		go func() {
+			defer func() { recover() }()
+			srv.VerifServeConn(sv, nil)
+		}()
+		return cl
+	}
+	ask := func(c net.Conn, req []byte) string {
+		c.SetDeadline(time.Now().Add(2 * time.Second))
+		if _, err := c.Write(req); err != nil {
+			return "werr"
+		}
+		rep, err := readReply(bufio.NewReader(c))
+		if err != nil {
+			return "noreply"
+		}
+		return hx(rep)
+	}
+	before := open()
+	defer before.Close()
+	obs := "b0:" + ask(before, reqS("PING")) + " "
+	for i := 0; i < n; i++ {
+		c := open()
+		var req []byte
+		switch toks[2] {
+		case "INCR":
+			req = reqS("INCR", "poison")
+		case "APPEND":
+			req = reqS("APPEND", "poison", "x")
+		case "ZREVRANGE":
+			req = reqS("ZREVRANGE", "poison", "0", "-1")
+		default:
+			req = reqS("STRLEN", "poison")
+		}
+		r := ask(c, req)
+		if r != "noreply" && r != hx([]byte("-E\r\n")) {
+			obs += "offender-answered:" + r + " "
+		}
+		c.Close()
+	}
+	after := open()
+	defer after.Close()
+	obs += "b1:" + ask(before, reqS("ECHO", "x")) + " a0:" + ask(after, reqS("PING")) + " a1:" + ask(after, reqS("GET", "k"))
+	want := "b0:" + hx([]byte("+PONG\r\n")) + " b1:" + hx([]byte("$1\r\nx\r\n")) + " a0:" + hx([]byte("+PONG\r\n")) + " a1:" + hx([]byte("$1\r\nv\r\n"))
+	tags := []string{"nt", "panic-witness"}
+	if obs != want {
+		return Result{Obs: obs, Oracle: "fail:after a request crashed inside the framework on another connection, witness connections were not served: " + trunc(obs, 120), Tags: tags}
+	}
+	return Result{Obs: "witness-served", Oracle: "ok", Tags: tags}
 }
 
 // case: "massdisc <clients> <rounds>": <clients> connections are opened, each sends one PING, then all of them are
